@@ -20,7 +20,9 @@ ASSUMPTIONS = [
     "faults are applied to decoded octets and re-encoded canonically",
     "general JSON bases carry two signatures by two keys of a key set (kid per signature)",
 ]
-PATHS = ["compact", "flattened", "general", "7797-attached", "7797-detached", "7797-flattened"]
+PATHS = ["compact", "flattened", "general", "7797-attached", "7797-detached", "7797-flattened", "7797-general"]
+GENERAL = ("general", "7797-general")
+JSON_PATHS = ("flattened", "general", "7797-flattened", "7797-general")
 PAYLOAD_JSON = b'{"iss":"joe","n":1}'
 PAYLOAD_7797 = b"aGVsbG8tV29ybGRfNw"   # URL-safe text that is also a canonical base64url string (of b"hello-World_7")
 
@@ -55,7 +57,7 @@ class Tok:
         out = {}
         if not self.drop_payload:
             out["payload"] = b64.enc(self.payload) if self.b64mode else self.payload.decode("utf-8", "replace")
-        if self.path == "general":
+        if self.path in GENERAL:
             sigs = []
             for m in self.members:
                 d = {}
@@ -98,11 +100,11 @@ def _make_base(alg, kind, path, placement, payload, which=0, extra_hdr=None):
     b64mode = not path.startswith("7797")
     jwk = scen.key(kind, which)
     members = []
-    n = 2 if path == "general" else 1
+    n = 2 if path in GENERAL else 1
     for i in range(n):
         k = scen.key(kind, which + i * 2)
         base = {"alg": alg}
-        if path == "general":
+        if path in GENERAL:
             base["kid"] = f"signer-{i}"
         if extra_hdr:
             base.update(extra_hdr)
@@ -123,7 +125,7 @@ def _make_base(alg, kind, path, placement, payload, which=0, extra_hdr=None):
 def verify_key(kind, path, which=0, kty_oct=False):
     """Key argument for the verifier: public key (or key set with kids for general JSON)."""
     from joserfc.jwk import KeySet
-    if path == "general":
+    if path in GENERAL:
         keys = []
         for i in range(2):
             k = scen.key(kind, which + i * 2)
@@ -168,7 +170,17 @@ def entry_points(path, payload_is_json):
         eps.append(("rfc7797.deserialize_compact", lambda t, k, a, p: _norm(rfc7797.deserialize_compact(t, k, payload=p, algorithms=a))))
     else:
         eps.append(("rfc7797.deserialize_json", lambda t, k, a, p: _norm(rfc7797.deserialize_json(t, k, algorithms=a))))
+        # the plain RFC 7515 entry point given an unencoded-payload token: it may refuse, it must not return other content
+        eps.append(("jws.deserialize_json", lambda t, k, a, p: _norm(jws.deserialize_json(t, k, algorithms=a))))
     return eps
+
+
+def must_accept(name, path):
+    """Whether refusing the unfaulted token is an error: RFC 7797 general JSON is not implemented by the library (it refuses),
+    and the plain RFC 7515 functions do not know b64."""
+    if path == "7797-general":
+        return False
+    return not (path.startswith("7797") and name.startswith("jws."))
 
 
 def _norm(o):
@@ -219,7 +231,7 @@ def apply_fault(ctx, tok, kind, fault, alg, path, placement, stride=1, tag=""):
     """Mutates tok according to `fault` (sub-choices via ctx.choose). Returns (description, key_override or None),
     or None when the fault does not apply to this base."""
     m_idx = 0
-    if path == "general" and fault.startswith(("bitflip-header", "bitflip-signature", "signature-", "respell-header")):
+    if path in GENERAL and fault.startswith(("bitflip-header", "bitflip-signature", "signature-", "respell-header")):
         m_idx = ctx.choose(tag + "member", [0, 1])
     m = tok.members[m_idx]
     if fault == "bitflip-header":
@@ -235,7 +247,7 @@ def apply_fault(ctx, tok, kind, fault, alg, path, placement, stride=1, tag=""):
         h = json.loads(m["protected"])
         sp = [s for s in A.spellings(h) if s[1].encode("utf-8") != m["protected"]]
         name, text = ctx.choose(tag + "spelling", sp)
-        for mm in (tok.members if path != "general" else [m]):
+        for mm in (tok.members if path not in GENERAL else [m]):
             mm["protected"] = text.encode("utf-8") if mm is m or mm["protected"] == m["protected"] else mm["protected"]
         return f"protected header #{m_idx} re-spelled ({name}), same members", None
     if fault == "bitflip-payload":
@@ -314,9 +326,9 @@ def apply_fault(ctx, tok, kind, fault, alg, path, placement, stride=1, tag=""):
             tok.payload = other.payload
         return f"segments {h}{p}{s} taken from a second valid token ({'another key' if which else 'same key'})", None
     if fault == "structural":
-        json_path = path in ("flattened", "general", "7797-flattened")
+        json_path = path in JSON_PATHS
         opts = []
-        if path == "general":
+        if path in GENERAL:
             opts += ["empty-signatures", "tamper-first-of-two", "tamper-second-of-two", "drop-valid-keep-tampered"]
         if path in ("flattened", "7797-flattened"):
             opts += ["add-empty-signatures-member"]
@@ -402,7 +414,7 @@ def apply_fault(ctx, tok, kind, fault, alg, path, placement, stride=1, tag=""):
         if sub == "other-key-same-kind":
             k = scen.key(kind, 1)
             key = A.jkey(k, "dict", private=(k["kty"] == "oct"))
-            if path == "general":
+            if path in GENERAL:
                 key = KeySet([A.jkey({**(k if k["kty"] == "oct" else rjwk.public_of(k)), "kid": f"signer-{i}"}, "dict") for i in range(2)])
         elif sub == "keyset-without-the-kid":
             k = scen.key(kind, 0)
@@ -425,7 +437,7 @@ def apply_fault(ctx, tok, kind, fault, alg, path, placement, stride=1, tag=""):
 def h_faults(ctx):
     alg, kind = ctx.choose("alg/key", scen.JWS_KINDS)
     path = ctx.choose("path", PATHS)
-    placement = ctx.choose("alg_placement", ["protected", "unprotected"] if path in ("flattened", "general", "7797-flattened") else ["protected"])
+    placement = ctx.choose("alg_placement", ["protected", "unprotected"] if path in JSON_PATHS else ["protected"])
     payload = PAYLOAD_JSON if not path.startswith("7797") else PAYLOAD_7797
     base = make_base(alg, kind, path, placement, payload)
     signed_payload = payload
@@ -463,7 +475,9 @@ def h_faults(ctx):
     for name, ep in entry_points(path, payload_is_json=(path == "compact")):
         r = call(ep, copy.deepcopy(wire), key, [alg, "none"] if "none-alg" in desc else [alg], caller_payload)
         if fault == "none":
-            if not r.ok:
+            if not r.ok and not must_accept(name, path):
+                buckets.append("valid-refused:form-not-implemented")
+            elif not r.ok:
                 vs.append(viol(f"valid token rejected by {name}: {fam}* {path}", f"{alg}/{kind} placement={placement}: {r.exc!r} token={str(wire)[:300]}"))
                 buckets.append("valid-rejected")
             else:
